@@ -104,6 +104,12 @@ def get_ranges(headervalue, content_length):
             # Syntactically invalid: see the rfc 2616 quote below.
             return None
         start, stop = spec.groups()
+        try:
+            int(start or 0), int(stop or 0)
+        except ValueError:
+            # More digits than int() converts
+            # (sys.get_int_max_str_digits): not a usable position.
+            return None
         if start:
             if not stop:
                 stop = content_length - 1
